@@ -161,3 +161,21 @@ func DfltOptSpecs() (*ref.Struct, *ref.Struct) {
 	})
 	return d, o
 }
+
+// RSpec returns the (self-referential) spec of the recursive type R.
+func RSpec() *ref.Struct {
+	s := &ref.Struct{Name: "R", GoType: reflect.TypeOf(R{})}
+	p := StPtr(s)
+	O := ref.ReqOptional
+	fs := []*ref.Field{
+		{Name: "S", ID: 1, Req: O, Type: p}, {Name: "L", ID: 2, Req: O, Type: ListOf(p)}, {Name: "T", ID: 3, Req: O, Type: SetOf(p)},
+		{Name: "MV", ID: 4, Req: O, Type: MapOf(Sc(ref.KI32), p)}, {Name: "MK", ID: 5, Req: O, Type: MapOf(p, Sc(ref.KI32))},
+		{Name: "LL", ID: 6, Req: O, Type: ListOf(ListOf(p))}, {Name: "X", ID: 7, Req: O, Type: Sc(ref.KI32)},
+	}
+	for _, f := range fs {
+		sf, _ := s.GoType.FieldByName(f.Name)
+		f.GoIdx = sf.Index[0]
+		s.Fields = append(s.Fields, f)
+	}
+	return s
+}
